@@ -271,6 +271,18 @@ def gen_values_cluster(rng, cfg):
         ops.append(["copies", key.hex()])
         if opts["replicas"] > 1 and rng.random() < 0.5:
             ops.append(["getentry", key.hex(), "rc"])
+    # several writes queued in one pipeline before Exec (Put and GetPut, different keys, types and values)
+    for _ in range(2):
+        items = []
+        for t in rng.sample(["int32", "uint64", "string", "bytes", "int64", "uint8"], rng.choice([2, 3, 4])):
+            k = newkey(b"b")
+            r = weird_bytes(rng, rng.choice([3, 9, 17])).hex() if t in ("string", "bytes") else str(int_random(rng, t))
+            items.append([k.hex(), t, r, rng.choice(["put", "getput", "getput"])])
+        ops.append(["bput", items])
+        for kx, t, r, _ in items:
+            for p in (rng.choice(PATHS), "own"):
+                ops.append(["get", p, kx, t])
+            ops.append(["copies", kx])
     # writes after the join, too
     for t in ("int32", "uint64", "string"):
         k = newkey()
@@ -348,6 +360,18 @@ def check_cluster(sc, obs):
         if ob[0] == "panic":
             return (i, "operation %s panicked: %s" % (op[0], ob[1]))
         name = op[0]
+        if name == "bput":
+            if ob[1] != "nil":
+                return (i, "a pipeline with %d queued writes failed: %s" % (len(op[1]), ob[1]))
+            for (kx, t, r, kind), code in zip(op[1], ob[2]):
+                key = bytes.fromhex(kx)
+                txt = ref_encode(t, r)
+                if (txt is not None and len(key) + len(txt) + META >= table) or len(key) >= MAXKEY:
+                    continue
+                if code != "nil":
+                    return (i, "pipelined %s of a fitting %s returned %s" % (kind, t, code))
+                store[kx] = (t, r, txt)
+            continue
         if name == "put":
             kx, t, r = op[2], op[3], op[4]
             key = bytes.fromhex(kx)
@@ -508,6 +532,10 @@ def cluster_to_coq(sc, obs, I):
     for op in sc["ops"]:
         if op[0] == "put" and op[3] not in MODELLED:
             skip.add(op[2])
+        if op[0] == "bput":
+            for kx, t, r, kind in op[1]:
+                if t not in MODELLED:
+                    skip.add(kx)
     steps = []
 
     def hk(kx):
@@ -519,6 +547,21 @@ def cluster_to_coq(sc, obs, I):
         name = op[0]
         if ob[0] in ("hang", "panic", "?"):
             break
+        if name == "bput":
+            if ob[1] != "nil":
+                break
+            stop = False
+            for (kx, t, r, kind), code in zip(op[1], ob[2]):
+                if kx in skip:
+                    continue
+                c = vallib.CODES.get(code)
+                if c is None:
+                    stop = True
+                    break
+                steps.append("(VPut %s %s %s %s, VCode %s)" % (hk(kx), cbytes(bytes.fromhex(kx)), COQ_TY[t], cgv(I, t, r), c))
+            if stop:
+                break
+            continue
         if name == "put":
             kx, t, r = op[2], op[3], op[4]
             if kx in skip:
@@ -810,6 +853,8 @@ def run(res):
                             after_join += 1
                 if op[0] == "put":
                     codes[ob[1]] = codes.get(ob[1], 0) + 1
+                if op[0] == "bput":
+                    paths["bput/pipe(%d)" % len(op[1])] = paths.get("bput/pipe(%d)" % len(op[1]), 0) + 1
             moved += (r.get("info") or {}).get("partitions_moved", 0)
     for s, bad in pred_fail:
         if any(t in bad[1] for t in tested):
